@@ -93,6 +93,9 @@ def s_len(I, st, args, kwargs):
     if isinstance(v, VTuple):
         return VInt(len(v.items))
     if isinstance(v, VStr):
+        from . import sym as _sym
+        if v.opaque:
+            return VInt(_sym.PLEN(v.t))
         return VInt(z3.Length(v.t))
     if isinstance(v, VDict):
         if v.size is None:
@@ -239,14 +242,21 @@ def materialize(I, st, a):
     """Replace a lambda-defined cell array by a named array with a pointwise axiom (needed as a trigger)."""
     if a.arr is None or z3.is_const(a.arr) and a.arr.decl().kind() == z3.Z3_OP_UNINTERPRETED:
         return a
-    i = z3.Int(fresh_name('i'))
-    G = z3.Array(fresh_name('mat'), z3.IntSort(), sort_of(a.ek))
-    body = z3.simplify(a.arr[i])
-    try:
-        ax = z3.ForAll([i], G[i] == a.arr[i], patterns=[G[i], body])
-    except z3.Z3Exception:
-        ax = z3.ForAll([i], G[i] == a.arr[i], patterns=[G[i]])
-    I.assume(st, ax)
+    tbl = I.__dict__.setdefault('_mat_tbl', {})
+    key = a.arr.get_id()
+    if key not in tbl:
+        i = z3.Int(fresh_name('i'))
+        nm = fresh_name('mat')
+        G = z3.Array(nm, z3.IntSort(), sort_of(a.ek))
+        body = z3.simplify(a.arr[i])
+        try:
+            ax = z3.ForAll([i], G[i] == a.arr[i], patterns=[G[i], body])
+        except z3.Z3Exception:
+            ax = z3.ForAll([i], G[i] == a.arr[i], patterns=[G[i]])
+        # definitional (conservative) axiom about a fresh name: registered globally, selected by relevance
+        I.speclib.axiom(nm + '.def', ax, nm)
+        tbl[key] = (G, a.arr)
+    G = tbl[key][0]
     return VSeq(a.ek, a.length, G, init=a.init, flavor=a.flavor, dtype=a.dtype)
 
 
@@ -371,23 +381,25 @@ def set_binop(I, st, op, a, b):
         _fix_set_kind(b, a.ek)
     x = z3.Const(fresh_name('x'), sort_of(a.ek))
     if isinstance(op, ast.Sub):
-        mem = z3.Lambda([x], z3.And(a.mem[x], z3.Not(b.mem[x])))
-        card = z3.Int(fresh_name('card'))
-        I.assume(st, card >= 0)
-        if a.card is not None:
-            I.assume(st, card <= a.card)
-        return VSet(a.ek, mem, card)
-    if isinstance(op, ast.BitOr):
-        mem = z3.Lambda([x], z3.Or(a.mem[x], b.mem[x]))
-        card = z3.Int(fresh_name('card'))
-        I.assume(st, card >= 0)
-        return VSet(a.ek, mem, card)
-    if isinstance(op, ast.BitAnd):
-        mem = z3.Lambda([x], z3.And(a.mem[x], b.mem[x]))
-        card = z3.Int(fresh_name('card'))
-        I.assume(st, card >= 0)
-        return VSet(a.ek, mem, card)
-    raise EngineError('set operator')
+        body = z3.And(a.mem[x], z3.Not(b.mem[x]))
+    elif isinstance(op, ast.BitOr):
+        body = z3.Or(a.mem[x], b.mem[x])
+    elif isinstance(op, ast.BitAnd):
+        body = z3.And(a.mem[x], b.mem[x])
+    else:
+        raise EngineError('set operator')
+    # named membership array with forward triggers on the operands' membership terms
+    mem = z3.Array(fresh_name('setop'), sort_of(a.ek), z3.BoolSort())
+    pats = [mem[x]]
+    for src in (a.mem, b.mem):
+        if z3.is_const(src) and src.decl().kind() == z3.Z3_OP_UNINTERPRETED:
+            pats.append(src[x])
+    I.assume(st, z3.ForAll([x], mem[x] == body, patterns=pats))
+    card = z3.Int(fresh_name('card'))
+    I.assume(st, card >= 0)
+    if isinstance(op, (ast.Sub, ast.BitAnd)) and a.card is not None:
+        I.assume(st, card <= a.card)
+    return VSet(a.ek, mem, card)
 
 
 def _as_set(I, st, v):
@@ -451,14 +463,24 @@ def m_append(I, st, s, x):
 _METHODS[(VSeq, 'append')] = m_append
 
 
+def _named(arr):
+    return z3.is_const(arr) and arr.decl().kind() == z3.Z3_OP_UNINTERPRETED
+
+
 def seq_concat(I, st, a, b):
     if a.arr is None:
         return VSeq(b.ek, b.length, b.arr, flavor=a.flavor)
     if b.arr is None:
         return VSeq(a.ek, a.length, a.arr, flavor=a.flavor)
+    # named result with forward triggers on the operands' cells (so that offsets la + j exist as ground terms)
+    a2, b2 = materialize(I, st, a), materialize(I, st, b)
     i = z3.Int(fresh_name('i'))
-    return VSeq(a.ek, a.length + b.length, z3.Lambda([i], z3.If(i < a.length, a.arr[i], b.arr[i - a.length])),
-                flavor=a.flavor)
+    C = z3.Array(fresh_name('concat'), z3.IntSort(), sort_of(a.ek))
+    la, lb = a2.length, b2.length
+    I.assume(st, z3.ForAll([i], z3.Implies(z3.And(i >= 0, i < la), C[i] == a2.arr[i]), patterns=[C[i], a2.arr[i]]))
+    I.assume(st, z3.ForAll([i], z3.Implies(z3.And(i >= 0, i < lb), C[la + i] == b2.arr[i]), patterns=[b2.arr[i]]))
+    I.assume(st, z3.ForAll([i], z3.Implies(z3.And(i >= la, i < la + lb), C[i] == b2.arr[i - la]), patterns=[C[i]]))
+    return VSeq(a.ek, la + lb, C, flavor=a.flavor)
 
 
 def seq_repeat(I, st, a, n):
@@ -769,7 +791,13 @@ def comprehension(I, st, e, out):
         I.assume(st, z3.And(card >= 0, card <= n))
         return VSet(ek, mem, card)
     if not conds:
-        return VSeq(ek, n, z3.Lambda([k], bt), flavor='list')
+        R0 = z3.Array(fresh_name('map'), z3.IntSort(), sort_of(ek))
+        pats = [R0[k]]
+        src_t = None
+        if isinstance(itv, VSeq) and itv.arr is not None and _named(itv.arr):
+            pats.append(itv.arr[k])
+        I.assume(st, z3.ForAll([k], R0[k] == bt, patterns=pats))
+        return VSeq(ek, n, R0, flavor='list')
     # filter: exact characterisation through a strictly increasing source map and a rank function
     cond = z3.And(*conds)
     R = z3.Array(fresh_name('flt'), z3.IntSort(), sort_of(ek))
@@ -784,8 +812,12 @@ def comprehension(I, st, e, out):
         rk(src(j)) == j)), patterns=[R[j]]))
     I.assume(st, z3.ForAll([j, j2], z3.Implies(z3.And(j >= 0, j < j2, j2 < m), src(j) < src(j2)),
                            patterns=[z3.MultiPattern(src(j), src(j2))]))
-    I.assume(st, z3.ForAll([k], z3.Implies(z3.And(k >= 0, k < n, cond), z3.And(rk(k) >= 0, rk(k) < m, src(rk(k)) == k)),
-                           patterns=[rk(k)]))
+    cpats = [rk(k)]
+    if isinstance(itv, VSeq) and itv.arr is not None and _named(itv.arr):
+        cpats.append(itv.arr[k])
+    I.assume(st, z3.ForAll([k], z3.Implies(z3.And(k >= 0, k < n, cond), z3.And(rk(k) >= 0, rk(k) < m, src(rk(k)) == k,
+                                                                             R[rk(k)] == bt)),
+                           patterns=cpats))
     return VSeq(ek, m, R, flavor='list')
 
 
@@ -833,10 +865,13 @@ def s_sorted(I, st, args, kwargs):
                                                                       pinv(pi(i)) == i)), patterns=[R[i]]))
     I.assume(st, z3.ForAll([i], z3.Implies(z3.And(i >= 0, i < n), z3.And(pinv(i) >= 0, pinv(i) < n, pi(pinv(i)) == i,
                                                                       R[pinv(i)] == L.arr[i])), patterns=[pinv(i), L.arr[i]]))
-    I.assume(st, z3.ForAll([i, i2], z3.Implies(z3.And(i >= 0, i < i2, i2 < n), key(R[i]) <= key(R[i2])),
-                           patterns=[z3.MultiPattern(R[i], R[i2])]))
-    I.assume(st, z3.ForAll([i, i2], z3.Implies(z3.And(i >= 0, i < i2, i2 < n, key(R[i]) == key(R[i2])), pi(i) < pi(i2)),
-                           patterns=[z3.MultiPattern(pi(i), pi(i2))]))
+    ksort = key(R[i]).sort()
+    if ksort.kind() in (z3.Z3_INT_SORT, z3.Z3_REAL_SORT) or ksort == z3.StringSort():
+        I.assume(st, z3.ForAll([i, i2], z3.Implies(z3.And(i >= 0, i < i2, i2 < n), key(R[i]) <= key(R[i2])),
+                               patterns=[z3.MultiPattern(R[i], R[i2])]))
+        I.assume(st, z3.ForAll([i, i2], z3.Implies(z3.And(i >= 0, i < i2, i2 < n, key(R[i]) == key(R[i2])), pi(i) < pi(i2)),
+                               patterns=[z3.MultiPattern(pi(i), pi(i2))]))
+    # (for keys of an uninterpreted sort only the permutation facts are assumed: a weaker, still sound, stub)
     r = VSeq(L.ek, n, R, flavor='list')
     r.perm = (pi, pinv)
     return r
@@ -856,3 +891,68 @@ def _mentions(t, v):
         else:
             stack.extend(x.children())
     return False
+
+
+def _pairs_stub(I, st, seq, with_replacement):
+    """itertools.combinations(_with_replacement)(s, 2): all index pairs i <= j (i < j) in lexicographic order."""
+    seq = materialize(I, st, seq) if seq.arr is not None else seq
+    n = seq.length
+    ek = ('tuple', seq.ek, seq.ek)
+    if seq.arr is None:
+        return VSeq(ek, z3.IntVal(0), z3.Array(fresh_name('pairs'), z3.IntSort(), sort_of(ek)), flavor='list')
+    R = z3.Array(fresh_name('pairs'), z3.IntSort(), sort_of(ek))
+    L = z3.Int(fresh_name('pairs.len'))
+    ia = z3.Function(fresh_name('pairs.i'), z3.IntSort(), z3.IntSort())
+    ib = z3.Function(fresh_name('pairs.j'), z3.IntSort(), z3.IntSort())
+    pos = z3.Function(fresh_name('pairs.pos'), z3.IntSort(), z3.IntSort(), z3.IntSort())
+    m, m2, i, j = (z3.Int(fresh_name(x)) for x in ('m', 'm2', 'i', 'j'))
+    mk = sort_of(ek).constructor(0)
+    rel = (lambda a, b: a <= b) if with_replacement else (lambda a, b: a < b)
+    I.assume(st, L >= 0)
+    I.assume(st, (2 * L == n * (n + 1)) if with_replacement else (2 * L == n * (n - 1)))
+    I.assume(st, z3.ForAll([m], z3.Implies(z3.And(m >= 0, m < L), z3.And(
+        ia(m) >= 0, rel(ia(m), ib(m)), ib(m) < n, R[m] == mk(seq.arr[ia(m)], seq.arr[ib(m)]), pos(ia(m), ib(m)) == m)),
+        patterns=[R[m]]))
+    I.assume(st, z3.ForAll([i, j], z3.Implies(z3.And(i >= 0, rel(i, j), j < n), z3.And(
+        pos(i, j) >= 0, pos(i, j) < L, ia(pos(i, j)) == i, ib(pos(i, j)) == j,
+        R[pos(i, j)] == mk(seq.arr[i], seq.arr[j]))), patterns=[pos(i, j), z3.MultiPattern(seq.arr[i], seq.arr[j])]))
+    I.assume(st, z3.ForAll([m, m2], z3.Implies(z3.And(m >= 0, m < m2, m2 < L), z3.Or(
+        ia(m) < ia(m2), z3.And(ia(m) == ia(m2), ib(m) < ib(m2)))), patterns=[z3.MultiPattern(ia(m), ia(m2))]))
+    return VSeq(ek, L, R, flavor='tuple')
+
+
+@stub('itertools.combinations_with_replacement')
+def s_cwr(I, st, args, kwargs):
+    k = z3.simplify(_int(args[1]))
+    if not (z3.is_int_value(k) and k.as_long() == 2):
+        raise EngineError('combinations_with_replacement with r != 2')
+    return _pairs_stub(I, st, _as_seq(I, st, args[0]), True)
+
+
+@stub('itertools.combinations')
+def s_comb(I, st, args, kwargs):
+    k = z3.simplify(_int(args[1]))
+    if z3.is_int_value(k) and k.as_long() == 2:
+        return _pairs_stub(I, st, _as_seq(I, st, args[0]), False)
+    raise EngineError('itertools.combinations with symbolic / higher order: abstract it in the contract')
+
+
+def _as_seq(I, st, v):
+    if isinstance(v, VSeq):
+        return v
+    if isinstance(v, VSet):
+        return s_list(I, st, [v], {})
+    if isinstance(v, VTuple):
+        return I.seq_from_items(v.items, st)
+    raise EngineError(f'not a sequence: {v!r}')
+
+
+_sorted_seq = s_sorted
+
+
+@stub('sorted')
+def s_sorted2(I, st, args, kwargs):
+    if isinstance(args[0], VSet):
+        lst = materialize(I, st, s_list(I, st, [args[0]], {}))
+        return _sorted_seq(I, st, [lst] + list(args[1:]), kwargs)
+    return _sorted_seq(I, st, args, kwargs)
